@@ -32,7 +32,7 @@
 //! model (`OH.Model.Py.Core`), so that the Lean driver can run the binding model on them:
 //!   `P:<1|0|panic:site>` parse, `C:<1|0|->` country known, `X:<1|0|->` Coordinates::new, `AZ:<zone|->`
 //!   zone at the coordinates, `K:<hol>;<loc>` the equivalent context built here, `D:<enc>` / `ND:<enc>` Display of
-//!   the expression / of its normal form, `DQ:<enc>` Rust's `{:?}` of that string, `in0=` / `in1=` the inputs as chrono sees them (`N:<day>:<ns>`,
+//!   the expression / of its normal form, `DQ:<enc>` that string as a double quoted Python literal (the binding's `python_quoted`, mirrored here), `in0=` / `in1=` the inputs as chrono sees them (`N:<day>:<ns>`,
 //!   `A:<zone>:<utc day>:<utc ns>`, `conv`, `now:<day>:<ns>`), `Tn:<zone>:<utc>:<naive>` naive_local,
 //!   `Td:<zone>:<naive>:<utc|panic>` Localize::datetime, then `F <from> <to> none|some <iv>` (first item of
 //!   iter_range_naive) or `L <from> <to> <all|cut> <n> <iv>*` (its first items), `<iv>` = `<start> <end> <kind> <k> <comment>*`.
@@ -658,7 +658,7 @@ pub fn exec(op: &str, a: &[&str]) -> Option<String> {
         "py.repr" => {
             // `format!("OpeningHours({:?})", self.inner.to_string())` is the binding's; the core has no repr.
             // What the core determines is the string a faithful repr must evaluate back to.
-            f.push(format!("DQ:{}", enc(&format!("{:?}", b.oh.to_string()))));
+            f.push(format!("DQ:{}", enc(&python_quoted(&b.oh.to_string()))));
             format!("R {}", enc(&b.oh.to_string()))
         }
         "py.eq" => {
@@ -1195,4 +1195,26 @@ pub fn gen(tier: &str, rng: &mut Rng, emit: &mut dyn FnMut(String)) {
         emit(format!("py.intervals {c} - - 2"));
     }
     emit(format!("#note py ops not emitted because the core needed more than the budget: {skipped}"));
+}
+
+/// Mirror of `python_quoted` in opening-hours-py/src/lib.rs (private there): the string as a double
+/// quoted Python literal.  The binding model takes this as the abstract "quote" operation of the core.
+fn python_quoted(value: &str) -> String {
+    let mut res = String::with_capacity(value.len() + 2);
+    res.push('"');
+    for c in value.chars() {
+        match c {
+            '"' => res.push_str("\\\""),
+            '\\' => res.push_str("\\\\"),
+            '\n' => res.push_str("\\n"),
+            '\r' => res.push_str("\\r"),
+            '\t' => res.push_str("\\t"),
+            c if c.is_control() || matches!(c, '\u{85}' | '\u{200b}' | '\u{2028}' | '\u{2029}') => {
+                res.push_str(&format!("\\U{:08x}", u32::from(c)))
+            }
+            c => res.push(c),
+        }
+    }
+    res.push('"');
+    res
 }
